@@ -36,6 +36,7 @@ func main() {
 
 type chainSearch struct {
 	start, depth, ops, maxFrontier int
+	minStake                       uint64
 }
 
 func chainPart(r *mc.Run, cov map[string]any) {
@@ -44,9 +45,9 @@ func chainPart(r *mc.Run, cov map[string]any) {
 	}
 	// quick: the 9-list alphabet from genesis to depth 3, and from a chain that is already 3 and 5
 	// blocks long (evidence of root heights 1..2 expired there) to depth 2
-	searches := []chainSearch{{0, 3, quickOps, 0}, {3, 2, quickOps, 0}, {5, 2, quickOps, 0}}
+	searches := []chainSearch{{0, 3, quickOps, 0, 0}, {3, 2, quickOps, 0, 0}, {5, 2, quickOps, 0, 0}, {3, 1, quickOps, 0, 95_000}}
 	if !r.Quick() {
-		searches = []chainSearch{{0, 4, len(evLists), 0}, {3, 3, len(evLists), 0}, {5, 3, len(evLists), 0}, {0, 6, quickOps, 400}}
+		searches = []chainSearch{{0, 4, len(evLists), 0, 0}, {3, 3, len(evLists), 0, 0}, {5, 3, len(evLists), 0, 0}, {3, 3, len(evLists), 0, 95_000}, {0, 6, quickOps, 400, 0}}
 	}
 	if *cdepthFlag > 0 {
 		for i := range searches {
@@ -68,7 +69,7 @@ func chainPart(r *mc.Run, cov map[string]any) {
 		run := func(paths [][]int, probe bool) ([]*cresult, []bool) {
 			jobs := make([]cjob, len(paths))
 			for i, p := range paths {
-				jobs[i] = cjob{Start: s.start, Path: p, Probe: probe}
+				jobs[i] = cjob{Start: s.start, Path: p, Probe: probe, MinStake: s.minStake}
 			}
 			return mc.Map[cjob, cresult](pool, jobs, r.Expired)
 		}
@@ -144,8 +145,8 @@ func chainPart(r *mc.Run, cov map[string]any) {
 		}
 		states += nStates
 		transitions += nTrans
-		per = append(per, map[string]any{"start_height": s.start + 1, "depth": s.depth, "depth_completed": depthDone, "alphabet": s.ops, "states": nStates, "transitions": nTrans, "frontier_per_depth": fr})
-		fmt.Printf("chain part: start=%d depth=%d/%d ops=%d states=%d transitions=%d frontier=%v\n", s.start+1, depthDone, s.depth, s.ops, nStates, nTrans, fr)
+		per = append(per, map[string]any{"start_height": s.start + 1, "min_stake": s.minStake, "depth": s.depth, "depth_completed": depthDone, "alphabet": s.ops, "states": nStates, "transitions": nTrans, "frontier_per_depth": fr})
+		fmt.Printf("chain part: start=%d minstake=%d depth=%d/%d ops=%d states=%d transitions=%d frontier=%v\n", s.start+1, s.minStake, depthDone, s.depth, s.ops, nStates, nTrans, fr)
 		if len(frontier) > 0 {
 			p := frontier[len(frontier)/2]
 			var names []string
@@ -191,6 +192,7 @@ func chainReplay(r *mc.Run) bool {
 		Part  string `json:"part"`
 		Start int    `json:"start"`
 		Path  []int  `json:"path"`
+		Min   uint64 `json:"min_stake"`
 	}
 	if err := r.LoadReplay(&rp); err != nil || rp.Part != "chain" {
 		return false
@@ -198,7 +200,7 @@ func chainReplay(r *mc.Run) bool {
 	outcomes := map[string]int{}
 	for i := 0; i < 5; i++ {
 		pool := mc.NewProcPool(1)
-		res, _ := mc.Map[cjob, cresult](pool, []cjob{{Start: rp.Start, Path: rp.Path, Probe: true}}, func() bool { return false })
+		res, _ := mc.Map[cjob, cresult](pool, []cjob{{Start: rp.Start, Path: rp.Path, Probe: true, MinStake: rp.Min}}, func() bool { return false })
 		if res[0] == nil {
 			fmt.Println("HARNESS ERROR: no result")
 			os.Exit(2)
